@@ -268,6 +268,10 @@ def list_ops(kind):
         ops.append(["iadd", shape, it])
         if shape in ("list", "proxy-same", "proxy-otherfield", "proxy-othercfg"):
             ops.append(["add", shape, it])
+            if shape == "list" and it:
+                ops.append(["radd", shape, it])
+    ops.append(["extend_watch", raw[:2]])
+    ops.append(["iadd_watch", raw[:1]])
     for i in (0, 1, -1, 99):
         for v in raw[:2]:
             ops.append(["setitem", i, v])
@@ -405,11 +409,22 @@ def apply_list(target, op, norm, resolve):
         return target.insert(op[1], nv(dec(op[2])))
     if name == "extend":
         return target.extend(nit(dec(op[2])))
+    if name in ("extend_watch", "iadd_watch"):
+        # a lazy iterable that looks at the list it is feeding: a built-in list stores each item before it asks for the next
+        items = [dec(x) for x in op[1]]
+        cap = len(target) + 2
+        gen = (nv(v) for v in items * 3 if len(target) < cap)
+        if name == "extend_watch":
+            return target.extend(gen)
+        target += gen
+        return ("self", target)
     if name == "iadd":
         target += nit(dec(op[2]))
         return ("self", target)
     if name == "add":
         return target + nit(dec(op[2]))
+    if name == "radd":            # a plain list on the left: the plain list's contents come first
+        return list(dec(op[2])) + target      # (an ordinary list: the left operand's items as they are)
     if name == "setitem":
         target[op[1]] = nv(dec(op[2]))
         return None
@@ -640,7 +655,7 @@ def jobs(tier):
 
 def _argshape(op):
     name = op[0]
-    if name in ("extend", "iadd", "add", "assign"):
+    if name in ("extend", "iadd", "add", "assign", "radd"):
         return op[1]
     if name == "setslice":
         return "%s<-%s" % (op[1], op[2])
